@@ -25,7 +25,10 @@ fn prior(r: &mut Rng, p: &mut Parser, log: &mut Log, id: Option<u8>, n: u8) -> &
     match r.below(8) {
         0 => "fresh",
         1 => {
-            let _ = feed(p, log, nmea_ref::mk(n.max(2), 1, id, &uniq_payload(7001), 0), false);
+            // abandoned opener, decoding requested, announcing some other message type
+            let mut pl = uniq_payload(7001);
+            pl[0] = *r.pick(crate::armor::ALPHABET);
+            let _ = feed(p, log, nmea_ref::mk(n.max(2), 1, id, &pl, 0), r.bool());
             "abandoned-same-id"
         }
         2 => {
@@ -120,6 +123,7 @@ struct Case<'a> {
     decode: bool,
     interleave: bool,
     kind: &'a str,
+    vary_decode: bool,
 }
 
 fn run_case(rep: &mut Report, r: &mut Rng, c: &Case) {
@@ -149,7 +153,10 @@ fn run_case(rep: &mut Report, r: &mut Rng, c: &Case) {
             }
         }
         rep.eval();
-        let out = feed(&mut p, &mut log, line, c.decode);
+        // the decode flag of a non-final fragment is irrelevant to the outcome of the group:
+        // vary it (the final fragment decides with c.decode)
+        let d = if k < n && c.vary_decode { r.bool() } else { c.decode };
+        let out = feed(&mut p, &mut log, line, d);
         let o = match out {
             Call::Panic(pi) => {
                 rep.violation(PID, format!("panic@{}", pi.loc), format!("panic '{}' at {} on fragment {}/{}", pi.msg, pi.loc, k, n), || mon::replay_history(&log, c.kind));
@@ -301,7 +308,7 @@ pub fn run(ctx: &Ctx, rep: &mut Report) {
             }
             item += 1;
             let (id, idtext) = ids[(mask as usize) % ids.len()];
-            let c = Case { payload: &payload, fill: 0, cuts, id, idtext: idtext.into(), decode: false, interleave: mask % 3 == 0, kind: "compositions" };
+            let c = Case { payload: &payload, fill: 0, cuts, id, idtext: idtext.into(), decode: false, interleave: mask % 3 == 0, kind: "compositions", vary_decode: mask % 5 == 0 };
             run_case(rep, &mut r, &c);
         }
     }
@@ -315,7 +322,7 @@ pub fn run(ctx: &Ctx, rep: &mut Report) {
         }
         let parts = r.usize(2, 9.min(chars.len()));
         let (id, idtext) = *r.pick(&ids);
-        let c = Case { payload: &chars, fill, cuts: split_points(&mut r, chars.len(), parts), id, idtext: idtext.into(), decode: i % 8 != 0, interleave: r.bool(), kind: br.name };
+        let c = Case { payload: &chars, fill, cuts: split_points(&mut r, chars.len(), parts), id, idtext: idtext.into(), decode: i % 8 != 0, interleave: r.bool(), kind: br.name, vary_decode: i % 3 == 0 };
         run_case(rep, &mut r, &c);
     }
     // (3) repository vectors and random armored text / arbitrary non-comma bytes
@@ -335,7 +342,7 @@ pub fn run(ctx: &Ctx, rep: &mut Report) {
             // one-character final fragment
             cuts = vec![payload.len() - 1];
         }
-        let c = Case { payload: &payload, fill: r.below(6) as u8, cuts, id, idtext: idtext.into(), decode: i % 3 == 0, interleave: r.bool(), kind: "text" };
+        let c = Case { payload: &payload, fill: r.below(6) as u8, cuts, id, idtext: idtext.into(), decode: i % 3 == 0, interleave: r.bool(), kind: "text", vary_decode: i % 4 == 0 };
         run_case(rep, &mut r, &c);
     }
     // (4) long groups up to the no-allocator capacity (total <= 384 here; beyond is C18's)
@@ -344,7 +351,7 @@ pub fn run(ctx: &Ctx, rep: &mut Report) {
         let payload = armor_chars(&mut r, total);
         let parts = r.usize(2, 9);
         let (id, idtext) = *r.pick(&ids);
-        let c = Case { payload: &payload, fill: 0, cuts: split_points(&mut r, total, parts), id, idtext: idtext.into(), decode: false, interleave: r.bool(), kind: "long" };
+        let c = Case { payload: &payload, fill: 0, cuts: split_points(&mut r, total, parts), id, idtext: idtext.into(), decode: false, interleave: r.bool(), kind: "long", vary_decode: false };
         run_case(rep, &mut r, &c);
     }
     for _ in 0..ctx.budget(300, 20_000) {
